@@ -97,6 +97,8 @@ class Inst:
         self.d = int(code.d)
         self.coords = [tuple(int(x) for x in c) for c in code.qubit_coordinates]
         self.name = 'i' + '_'.join(map(str, size))
+        self.coord_index = {c: i for i, c in enumerate(self.coords)}
+        self.ranges = _ranges(self) if self.coords else None
 
 
 # ------------------------------------------------------------------ packing search
@@ -111,16 +113,18 @@ def _ranges(inst: Inst):
     return dim, lo, hi, qlo, qhi
 
 
-def translates(inst: Inst, l: int) -> List[int]:
-    """lattice translates of the operator l (as packed BSF), wrapped modulo candidate periods"""
+def translate_batches(inst: Inst, l: int):
+    """lattice translates of the operator l (as packed BSF), wrapped modulo candidate periods;
+    one batch per period combination (generator, most plausible periods first)"""
     n = inst.n
-    idx = {c: i for i, c in enumerate(inst.coords)}
-    dim, lo, hi, qlo, qhi = _ranges(inst)
+    idx = inst.coord_index
+    dim, lo, hi, qlo, qhi = inst.ranges
     sup = [q for q in range(n) if (supp(n, l) >> q) & 1]
     if not sup:
-        return []
+        return
     letters = [((l >> q) & 1, (l >> (n + q)) & 1) for q in sup]
-    c0 = inst.coords[sup[0]]
+    sup_coords = [inst.coords[q] for q in sup]
+    c0 = sup_coords[0]
     # candidate periods per axis: range of all coordinates, range of the qubit coordinates, 2*L
     periods = []
     for i in range(dim):
@@ -130,27 +134,27 @@ def translates(inst: Inst, l: int) -> List[int]:
             if p > 0 and p not in ps:
                 ps.append(p)
         periods.append(ps)
-    out, seen = [], set()
+    seen = set()
+    rng = range(dim)
     for per in itertools.islice(itertools.product(*periods), 12):
+        out = []
         for tq in range(n):
-            t = tuple(inst.coords[tq][i] - c0[i] for i in range(dim))
+            ct = inst.coords[tq]
+            off = [ct[i] - c0[i] - qlo[i] for i in rng]
             v = 0
-            ok = True
-            for q, (bx, bz) in zip(sup, letters):
-                c = inst.coords[q]
-                c2 = tuple((c[i] + t[i] - qlo[i]) % per[i] + qlo[i] for i in range(dim))
-                j = idx.get(c2)
+            for c, (bx, bz) in zip(sup_coords, letters):
+                j = idx.get(tuple([(c[i] + off[i]) % per[i] + qlo[i] for i in rng]))
                 if j is None:
-                    ok = False
+                    v = -1
                     break
                 if bx:
                     v ^= (1 << j)
                 if bz:
                     v ^= (1 << (n + j))
-            if ok and v not in seen and pweight(n, v) == len(sup):
+            if v > 0 and v not in seen and pweight(n, v) == len(sup):
                 seen.add(v)
                 out.append(v)
-    return out
+        yield out
 
 
 def pick_disjoint(sups: List[int], d: int, limit: int = 20000) -> Optional[List[int]]:
@@ -175,20 +179,20 @@ def pick_disjoint(sups: List[int], d: int, limit: int = 20000) -> Optional[List[
 
 
 def lighten(inst: Inst, v: int, sel: int, forbidden: int) -> Tuple[int, int]:
-    """greedy descent: multiply by generators that avoid `forbidden` while the weight drops"""
+    """steepest descent: multiply by the generator (avoiding `forbidden`) that lowers the
+    weight most, while the weight drops"""
     n = inst.n
     gens = [(i, g) for i, g in enumerate(inst.H) if not (supp(n, g) & forbidden)]
     w = pweight(n, v)
-    improved = True
-    while improved:
-        improved = False
+    while True:
+        best = None
         for i, g in gens:
-            v2 = v ^ g
-            w2 = pweight(n, v2)
-            if w2 < w:
-                v, w, sel = v2, w2, sel ^ (1 << i)
-                improved = True
-    return v, sel
+            w2 = pweight(n, v ^ g)
+            if w2 < w and (best is None or w2 < best[0]):
+                best = (w2, i, g)
+        if best is None:
+            return v, sel
+        w, v, sel = best[0], v ^ best[2], sel ^ (1 << best[1])
 
 
 def avoid_rep(inst: Inst, l: int, used: int) -> Optional[Tuple[int, int]]:
@@ -208,23 +212,43 @@ def avoid_rep(inst: Inst, l: int, used: int) -> Optional[Tuple[int, int]]:
     return lighten(inst, v, sel, used)
 
 
+def _pack_translates(inst: Inst, red: Reducer, l: int, seed: int, seed_sel: int) -> Optional[List[int]]:
+    """d disjoint members of l + S among the lattice translates of `seed` (itself in l + S)"""
+    n, d = inst.n, inst.d
+    cands: List[Tuple[int, int]] = [(seed, seed_sel)]
+    for batch in translate_batches(inst, seed):
+        grew = False
+        for v in batch:
+            if v == seed:
+                continue
+            res, sel = red.reduce(v ^ l)
+            if res == 0:
+                cands.append((v, sel))
+                grew = True
+        if not grew or len(cands) < d:
+            continue
+        cands.sort(key=lambda t: (pweight(n, t[0]), t[0]))
+        sups = [supp(n, v) for v, _ in cands]
+        pick = pick_disjoint(sups, d)
+        if pick is not None:
+            return [cands[i][1] for i in pick]
+    return None
+
+
 def packing_for_logical(inst: Inst, red: Reducer, l: int) -> Optional[List[int]]:
     """d selection masks c_j such that the l xor xorSelect(H, c_j) are pairwise disjoint"""
     n, d = inst.n, inst.d
-    cands: List[Tuple[int, int]] = []
-    seen = set()
-    for v in [l] + translates(inst, l):
-        if v in seen:
-            continue
-        seen.add(v)
-        res, sel = red.reduce(v ^ l)
-        if res == 0:
-            cands.append((v, sel))
-    cands.sort(key=lambda t: (pweight(n, t[0]), t[0]))
-    sups = [supp(n, v) for v, _ in cands]
-    pick = pick_disjoint(sups, d)
-    if pick is not None:
-        return [cands[i][1] for i in pick]
+    if d == 1:
+        return [0]
+    r = _pack_translates(inst, red, l, l, 0)
+    if r is not None:
+        return r
+    # the listed representative may be bent: straighten it by a greedy descent first
+    l0, s0 = lighten(inst, l, 0, 0)
+    if l0 != l:
+        r = _pack_translates(inst, red, l, l0, s0)
+        if r is not None:
+            return r
     # fallback: grow a family greedily with representatives solved for by linear algebra
     fam: List[Tuple[int, int]] = []
     used = 0
@@ -280,6 +304,8 @@ def verify_packing(inst: Inst, sels: List[List[int]]) -> bool:
 
 def verify_packing_flat(inst: Inst, flat: List[int]) -> bool:
     d = inst.d
+    if d <= 0:
+        return False
     return len(flat) == d * 2 * inst.k and verify_packing(inst, [flat[i:i + d] for i in range(0, len(flat), d)])
 
 
